@@ -188,9 +188,9 @@ OsQuiesce(ev, L) ==
      (~ev.armed => OG("AllReleased", IF big = {} THEN <<>> ELSE (CHOOSE s \in big : TRUE), big = {}))
   /\ (oscfg.purge_delay >= 0 => OG("DirtyAllReleased", Cardinality(dirtyU \ refusedU), dirtyU \subseteq refusedU))
   /\ ((ev.round >= 3 /\ refusedU = {}) => OG("NoCreepMapped", <<prevQ[1], mp>>, mp <= prevQ[1]))
-  \* (with purging disabled nothing is ever given back and the set of touched pages may still grow inside the mapped memory: only the
-  \* mapped size is demanded to stay put then)
-  /\ ((ev.round >= 3 /\ refusedU = {} /\ oscfg.purge_delay >= 0) => OG("NoCreepResident", <<prevQ[2], ev.resident>>, ev.resident <= prevQ[2] + ev.tol))
+  \* (resident memory is measured by the kernel per process: a tolerance of ev.tol pages plus 1/64 of the previous value absorbs
+  \* page-table and stack noise; with purging disabled the resident set is large and which pages are re-touched varies a little)
+  /\ ((ev.round >= 3 /\ refusedU = {}) => OG("NoCreepResident", <<prevQ[2], ev.resident>>, ev.resident <= prevQ[2] + ev.tol + (prevQ[2] \div 64)))
   /\ prevQ' = <<mp, ev.resident>>
   /\ round' = ev.round + 1
   /\ UNCHANGED <<maps, now, dirtyU, cand, t0set, lastInuse, refusedU, oscfg>>
